@@ -495,3 +495,26 @@ def r07_10(ctx):
     from .c05 import statement_operand_kind_independence
 
     statement_operand_kind_independence(ctx)
+
+
+@rule("R07.11", "C07", "how an operand is resolved follows from its spelling alone: N<x>N operands are new-value operands (NREG2OP), every other letter class goes through ISA2REG also with .new; a register named twice is one object (the holder files operands under the name it looks them up by); an immediate keeps its type however it is used", min_instances=20)
+def r07_11(ctx):
+    from .c03 import init_a_cast_kind_independence
+    from .c12 import r12_8
+
+    idx = get_index(ctx.env)
+    # Register.__init__: the new-value flag
+    fi = idx.resolve_method("Register", "__init__")
+    ctx.need(fi is not None, "Register.__init__ not found")
+    acc = lambda m: EnumV("RegisterAccessType", m, idx.enum_table("RegisterAccessType")[m])
+    for name, is_new, exp in (("Ns", True, True), ("Nt", True, True), ("Pt", True, False), ("Ps", True, False), ("Rs", True, False), ("Rt", True, False), ("Pu", True, False),
+                              ("Rs", False, False), ("Rss", False, False), ("Nt", False, True)):
+        def once(i, name=name, is_new=is_new):
+            o = AObj("Register", {}, label="self")
+            i.call_function(fi, [name, acc("R"), mk_vt("tr", True, 32), is_new], self_obj=o)
+            return o.fields.get("is_n_reg")
+        outs = Interp(idx).explore(once)
+        got = sorted({str(o.value) if o.kind == "return" else "RAISE" for o in outs})
+        ctx.check(f"register {name}{'N' if is_new else 'V'}: new-value operand (resolved through the producer)", got == [str(exp)], str(exp), str(got), fn_where(idx, fi))
+    r12_8(ctx)
+    init_a_cast_kind_independence(ctx)
